@@ -13,5 +13,12 @@ J
 cd "$VERIF_ROOT/harness"
 cmp -s "$REPO/go.sum" go.sum || cp "$REPO/go.sum" go.sum
 for pkg in "$@"; do
-  go build $race -tags verif -overlay "$out/overlay.json" -o "$out/$(basename $pkg)$race" "./cmd/$pkg"
+  case "$pkg" in
+    e3dc)      # the command line tool itself, built from the working tree (no hooks needed, overlay harmless)
+      (cd "$REPO" && go build -o "$out/e3dc" ./cmd/e3dc) ;;
+    e3dc.test) # the in-package driver of cmd/e3dc (overlay-injected _test.go)
+      (cd "$REPO" && go test -c -tags verif -overlay "$out/overlay.json" -o "$out/e3dc.test" ./cmd/e3dc) ;;
+    *)
+      go build $race -tags verif -overlay "$out/overlay.json" -o "$out/$(basename $pkg)$race" "./cmd/$pkg" ;;
+  esac
 done
